@@ -157,8 +157,11 @@ impl Context {
         let mut rounds = 0;
         loop {
             changed = false;
+            // The macros to apply are those named in the text as it stands now: a
+            // replacement can bring in a macro the original text did not mention
+            let current = res.clone();
             for (i, set) in self.regex_sets.iter().enumerate() {
-                for idx in set.matches(s).into_iter() {
+                for idx in set.matches(&current).into_iter() {
                     let x = self.regexes[i][idx]
                         .0
                         .replace_all(&res, &self.regexes[i][idx].1);
